@@ -455,11 +455,17 @@ class CodeGen:
                     yield asm.Mov(self.defeat, stdlib.halt)
                     yield asm.Label(begin_try)
                     yield from self.gen_block(block.body)
+                    # If a forced preempt let the body complete, defeat
+                    # is still virtualized -- devirtualize it again.
+                    yield asm.Mov(self.defeat, prev_defeat)
                     yield from self.goto(end_try)
 
                     yield asm.Label(handler)
                     yield asm.Metadata('stop block')
                     self.effective_defeat = prev_defeat
+                    # The handler must not stay installed, or later
+                    # defeat would come back here.
+                    yield asm.Mov(self.defeat, prev_defeat)
                     yield asm.Mov(self.fp, asm.State(self.try_fp))
                     yield from ap_bubble.value.to(self.ap)
                     yield from self.pop(ap_bubble)
